@@ -5,3 +5,7 @@ import NipyVerif.Props.C20
 #print axioms NipyVerif.C20.viewOffset_cstrides
 #print axioms NipyVerif.C20.corner_in_bounds
 #print axioms NipyVerif.C20.guardedNeighbour_in_bounds
+#print axioms NipyVerif.C20.joint_histogram_neighbours_in_bounds
+#print axioms NipyVerif.C20.joint_histogram_writes_in_bounds
+#print axioms NipyVerif.C20.mrf_neighbour_in_bounds
+#print axioms NipyVerif.C20.cubic_spline_mirror_in_bounds
